@@ -85,9 +85,18 @@ def rule_y2(ctx, funcs: List[Func]) -> None:
             it_txt = unparse(it)
             # how was the iterable computed?  <it> = g(..., s, ...)
             srcs: Set[str] = set()
-            for a in own_nodes(f.node):
-                if isinstance(a, ast.Assign) and any(unparse(t) == it_txt for t in a.targets) and isinstance(a.value, ast.Call):
-                    srcs |= {x.id for arg in a.value.args for x in ast.walk(arg) if isinstance(x, ast.Name)}
+            work, seen_t = [it_txt], set()
+            while work:
+                tt = work.pop()
+                if tt in seen_t:
+                    continue
+                seen_t.add(tt)
+                for a in own_nodes(f.node):
+                    if isinstance(a, ast.Assign) and any(unparse(t) == tt for t in a.targets):
+                        if isinstance(a.value, ast.Call):
+                            srcs |= {x.id for arg in a.value.args for x in ast.walk(arg) if isinstance(x, ast.Name)}
+                        elif isinstance(a.value, ast.Name):
+                            work.append(a.value.id)  # a copy of another local (an expanded helper's result)
             if not srcs:
                 continue
             # objects built from the same source before the loop describe the same
